@@ -262,6 +262,13 @@ def argparse_function(
                                                     "return_type"
                                                 ]["default"]
                                             )
+                                            # a number or a boolean is its own constant; only text is parsed
+                                            or not isinstance(
+                                                intermediate_repr["returns"][
+                                                    "return_type"
+                                                ]["default"],
+                                                str,
+                                            )
                                             else ast.parse(
                                                 intermediate_repr["returns"][
                                                     "return_type"
